@@ -182,7 +182,7 @@ func TestRelay(t *testing.T) {
 				if lc.closed || lc.success {
 					break
 				}
-				lc.respond(rs.ID, rs.OK, respBody(resp{ID: rs.ID, OK: rs.OK}, k+1))
+				lc.respond(rs.ID, rs.OK, respBody(resp{ID: rs.ID, OK: rs.OK, Empty: rs.Empty}, k+1))
 				lc.drain(quiet / 4)
 			}
 			select {
